@@ -588,7 +588,7 @@ def tdb_rules(ctx, A):
         L = innermost_loop(tdb, g8[0].block)
         from r_panic import cycle_without
         ok8 = bool(L) and not cycle_without(tdb, L[1], L[0], {g8[0].block})
-    ctx.ob(['C05', 'C14'], 'R-GUARD', 'G8|duplicate-method-rejected', ok8, 'an impl function whose name is already taken (by a vftable, base or earlier function) is rejected, tested in every iteration', g8[0].where() if g8 else where)
+    ctx.ob(['C05', 'C14', 'C13'], 'R-GUARD', 'G8|duplicate-method-rejected', ok8, 'an impl function whose name is already taken (by a vftable, base or earlier function) is rejected, tested in every iteration', g8[0].where() if g8 else where)
     # bail census (C03-D2)
     census(ctx, A)
 
